@@ -168,6 +168,86 @@ theorem put_nil_deletes (cap : Nat) (es : Entries) (k : Nat) :
         exact ⟨e, hm, by simpa using hk⟩
   unfold cget; rw [h]
 
+private theorem find_cons_self (t : Entries) (k x : Nat) : find? ((k, x) :: t) k = some x := by
+  simp [find?]
+
+private theorem find_cons_ne (t : Entries) (k k' x : Nat) (hne : k' ≠ k) :
+    find? ((k, x) :: t) k' = find? t k' := by
+  have : (k == k') = false := by simpa using fun h => hne h.symm
+  simp [find?, this]
+
+private theorem find_remove_ne (es : Entries) (k k' : Nat) (hne : k' ≠ k) :
+    find? (remove es k) k' = find? es k' := by
+  unfold find? remove
+  induction es with
+  | nil => rfl
+  | cons e t ih =>
+    simp only [List.filter_cons]
+    cases h1 : (e.1 != k) with
+    | false =>
+      have hk : e.1 = k := by simpa using h1
+      have h2 : (e.1 == k') = false := by
+        rw [hk]; exact beq_false_of_ne (fun h => hne h.symm)
+      simp only [Bool.false_eq_true, if_false, List.find?_cons, h2]
+      exact ih
+    | true =>
+      simp only [if_true, List.find?_cons]
+      cases h3 : (e.1 == k') with
+      | true => rfl
+      | false => exact ih
+
+/-- `Put(k, s)` with `s ≠ nil` is immediately visible: the next `Get(k)` returns `s`, whatever the
+state and capacity (also at capacity: the recycled back element is overwritten with `(k, s)`). -/
+theorem get_after_put (cap : Nat) (es : Entries) (k x : Nat) :
+    (cget (cput cap es k (some x)) k).2 = some x := by
+  have h : find? (cput cap es k (some x)) k = some x := by
+    unfold cput
+    cases hf : find? es k with
+    | none => simp only; split <;> exact find_cons_self _ _ _
+    | some y => exact find_cons_self _ _ _
+  unfold cget; rw [h]
+
+/-- below capacity nothing is evicted: a `Put` of key `k` leaves the binding of every other key
+unchanged (an eviction is only legal when the cache is full and the key is new). -/
+theorem put_keeps_others_below_cap (cap : Nat) (es : Entries) (k k' : Nat) (v : Option Nat)
+    (hne : k' ≠ k) (hlt : es.length < cap) : find? (cput cap es k v) k' = find? es k' := by
+  unfold cput
+  cases hf : find? es k with
+  | none =>
+    cases v with
+    | none => rfl
+    | some x => simp only [hlt, if_true]; exact find_cons_ne _ _ _ _ hne
+  | some y =>
+    cases v with
+    | none => exact find_remove_ne _ _ _ hne
+    | some x => simp only; rw [find_cons_ne _ _ _ _ hne]; exact find_remove_ne _ _ _ hne
+
+/-- a `Put` on a key already present never evicts, whatever the fill level. -/
+theorem put_hit_keeps_others (cap : Nat) (es : Entries) (k k' y : Nat) (v : Option Nat)
+    (hne : k' ≠ k) (hhit : find? es k = some y) : find? (cput cap es k v) k' = find? es k' := by
+  unfold cput
+  rw [hhit]
+  cases v with
+  | none => exact find_remove_ne _ _ _ hne
+  | some x => simp only; rw [find_cons_ne _ _ _ _ hne]; exact find_remove_ne _ _ _ hne
+
+/-- `Get` never changes what any key is bound to (it only reorders). -/
+theorem get_keeps_bindings (es : Entries) (k k' : Nat) : find? (cget es k).1 k' = find? es k' := by
+  unfold cget
+  cases hf : find? es k with
+  | none => rfl
+  | some x =>
+    simp only
+    by_cases h : k' = k
+    · subst h; rw [find_cons_self]; exact hf.symm
+    · rw [find_cons_ne _ _ _ _ h]; exact find_remove_ne _ _ _ h
+
+/-! the hypotheses of the no-eviction corollaries are met by concrete states, and the below-capacity
+guard is necessary: at capacity a new key does evict the oldest other key. -/
+example : find? (cput 3 [(1, 7), (2, 8)] 5 (some 9)) 2 = some 8 := by decide
+example : find? (cput 2 [(1, 7), (2, 8)] 5 (some 9)) 2 = none ∧ find? [(1, 7), (2, 8)] 2 = some 8 := by decide
+example : find? (cput 2 [(1, 7), (2, 8)] 1 (some 9)) 2 = some 8 := by decide
+
 /-! Non-vacuity: a concrete reachable state and the D19 regression history. -/
 example : Inv 2 [(1, 7), (2, 8)] := ⟨by decide, by decide⟩
 example : (run (cstep 1) [] [.put 1 (some 7), .put 2 none, .get 1, .get 2]).2
